@@ -3,7 +3,7 @@
 export OMP_NUM_THREADS=2 MKL_NUM_THREADS=2
 while true; do
   did=0
-  for d in /tmp/seed/C*-out/[ab]; do
+  for d in /tmp/seed/C*-out/[ab]*; do
     [ -f $d/patch.diff ] && [ -f $d/demo.py ] && [ -f $d/README.md ] || continue
     id=$(basename $(dirname $d) | sed 's/-out//'); v=$(basename $d)
     [ -f /tmp/vseed-$id-$v.log ] && continue
